@@ -318,7 +318,7 @@ def harness_target_dir():
 
 def cargo_cmd(pkg, bin_name):
     cmd = ["cargo", "build", "--offline"]
-    for c in ("nervusdb", "nervusdb-api", "nervusdb-storage", "nervusdb-query"):
+    for c in ("nervusdb", "nervusdb-api", "nervusdb-storage", "nervusdb-query", "nervusdb-capi"):
         cmd += ["--config", 'patch.crates-io.%s.path="%s"' % (c, os.path.join(os.path.realpath(REPO), c))]
     return cmd + (["-p", pkg] if pkg else []) + ["--bin", bin_name]
 
